@@ -37,6 +37,18 @@ def run(ctx):
         raise vlib.Inconclusive("generator produced %d sessions" % len(sessions))
     evs, _, _ = run_harness(ctx, "jtp", "TestVerifFetch", {"sessions": sessions, "random": 150 if q else 1500}, timeout=1500)
     bad, r2 = vlib.judge(ctx, "T_Fetch", "T_Fetch.cfg", evs)
+    # addresses that differ in the query, the order of its parts or the case of a letter, fetched at the same time through client.FetchURL
+    sevs, _, _ = run_harness(ctx, "client", "TestVerifFetchSideBySide", {}, timeout=900, name="sidebyside")
+    sbad, _ = vlib.judge(ctx, "T_Fetch", "T_Fetch.cfg", sevs, name="T_Fetch_sidebyside")
+    res.extra["fetches_side_by_side"] = sum(1 for e in sevs if e["ev"] == "fetch")
+    for b in sbad:
+        e = sevs[b["line"] - 1]
+        sig = {"monitor": "T_Fetch", "why": b["why"], "warm": bool(e.get("pass"))}
+        path = vlib.save_replay(ctx.pid, "side-l%d" % b["line"], e)
+        res.violations.append((sig, path, "fetched side by side with its neighbours, %s gave %s (%s)" % (e["url"], e["res"], b["why"])))
+    for e in sevs:
+        if e["ev"] == "fetch":
+            res.case(["side by side", e["url"], e.get("pass")])
     sess = {}
     cur = None
     for e in evs:
